@@ -107,7 +107,7 @@ def envTmpl (envL tmplL : List SExp) : Option (Option Level × Option (KV × KV)
     | _ => none
   pure (env, tmpl)
 
-/-- model observation, Spec on the implementation's observation, hypothesis id -/
+/-- model observation (code as it is), Spec on the implementation's observation, hypothesis id (none left) -/
 def verdict (keys : List String) (roles specRoles : List RoleIn) (impl : String)
     (specOn : List RoleObs → Bool := caseOk keys specRoles) : String :=
   if !keysClear keys then "BADINPUT\t0\t-" else
@@ -118,14 +118,10 @@ def verdict (keys : List String) (roles specRoles : List RoleIn) (impl : String)
     | some os => os.mapM? parseObs
     | none => none
   let spec := match obs? with | some obs => specOn obs | none => false
-  -- a Spec failure is the known finding iff the observation is the as-coded
-  -- expectation and some role lies outside the partial theorem's hypothesis
-  let hyp :=
-    match spec, obs? with
-    | false, some obs =>
-      if decide (obs = specRoles.map (expectedAsCoded keys)) && specRoles.any (fun r => !tmplOrderIrrelevant keys r)
-      then "task_template_defaults_over_vars" else "-"
-    | _, _ => "-"
+  -- no excluded class: `modelObs` is the model of the code as it is (`codeCfg`, with the repair
+  -- of task_template_defaults_over_vars) and `C14_model_meets_spec_code` holds without
+  -- hypothesis, so every Spec failure is a plain violation
+  let hyp := "-"
   s!"{model}\t{if spec then 1 else 0}\t{hyp}"
 
 def processLine (line : String) : String :=
